@@ -92,10 +92,19 @@ def plan(prop, tier):
                 G("astral", Leaves="<-LvAstral", Quants="<-QSmall", MaxSize=3 if q else 4, Alpha="{66560, 769, 97}",
                   MaxLen=3, Variants='{"base", "xsd"}'),
                 T("rand", "spans", 1000, 20000), T("astralr", "astral", 1000, 20000)] + ([] if q else [SUITE])
+    if prop == "C05":
+        return [K("tok", Toks='"core"', MaxToks=4 if q else 5, Dialects="{TRUE, FALSE}"),
+                K("wide", Toks='"wide"', MaxToks=3 if q else 4),
+                K("lit", Mode='"lit"', Toks='"meta"', MaxToks=2 if q else 3),
+                G("valid", Leaves="<-LvAll", Quants="<-QAll", MaxSize=3, MaxLen=2, invs=["T1_RoundTrip"]),
+                T("mut", "general", 2000, 40000, mode="mutants"), T("garbage", "general", 2000, 60000, mode="garbage"),
+                T("bounds", "general", 1500, 20000, mode="bounds"), T("rand", "groups", 1500, 30000),
+                T("dial", "dialect", 1000, 20000, mode="mutants")] + ([] if q else [SUITE])
     if prop == "C06":
         return [G("loops", Leaves="<-LvLoop", Quants="<-QAll", MaxSize=4 if q else 5, Alpha="{97, 98, 10}",
                   MaxLen=3, FlagSets="<-FlagsM"),
-                T("rand", "loops", 2000, 40000)]
+                T("rand", "loops", 2000, 40000), T("bounds", "general", 1500, 20000, mode="bounds"),
+                T("garbage", "general", 1000, 30000, mode="garbage")]
     if prop == "C07":
         return [K("tok", Toks='"core"', MaxToks=4 if q else 5),
                 K("wide", Toks='"wide"', MaxToks=3 if q else 4),
@@ -140,6 +149,11 @@ def plan(prop, tier):
                 G("brefi", Leaves="<-LvBrefI", Quants="<-QBasic", MaxSize=4, MaxLen=3, FlagSets="<-FlagsI",
                   Alpha="{97, 65, 98}"),
                 T("rand", "brefs", 2000, 40000)]
+    if prop == "C20":
+        return [G("laws", Leaves="<-LvLaws", Quants="<-QLaws", MaxSize=3 if q else 4, MaxLen=3, MaxGroups=2,
+                  Variants='{"laws"}', invs=["T1_RoundTrip", "T16_Laws"]),
+                G("lawsi", Leaves="<-LvAB", Quants="<-QBasic", MaxSize=3, MaxLen=3, FlagSets="<-AllFlags",
+                  Alpha="{97, 65, 10}", Variants='{"laws"}', invs=["T16_Laws"])]
     return []
 
 
